@@ -15,10 +15,12 @@ TECHNIQUE = "property-based negative testing (Hypothesis): single-aspect structu
 RULE = (
     "Generated: a tree spec A and a variant B differing in exactly one structural aspect at a random depth (primitive "
     "type incl. look-alikes Stack/IrregularlyBin, Label/UntypedLabel, Index/Branch, Average/Deviate, "
-    "Minimize/Maximize, Fraction/Select; Bin num/low/high; binWidth/origin; centres; thresholds; Bag range; label "
+    "Minimize/Maximize, Fraction/Select; Bin num/low/high; binWidth/origin; centres; thresholds - each by a gross amount "
+    "or by a relative 1e-9; Bag range; label "
     "key sets; collection sizes; the type of any child incl. flows and the content type of sparse containers with "
     "empty / disjoint / overlapping keys), both filled to reachable states (same or different streams, possibly "
-    "empty), both operand orders, + and +=.  Oracle: the operation raises and the normalised documents of both "
+    "empty), both operand orders, + and +=, with the process-global comparison tolerances of histogrammar.util at 0, "
+    "1e-6 or 1e-3 (they are for ==, not for merge compatibility).  Oracle: the operation raises and the normalised documents of both "
     "operands are identical before and after; compatible control pairs (A vs a second build of A) must not raise and "
     "must leave the right operand untouched.  Non-trivial: an incompatible pair whose difference is at depth >= 1 or "
     "is a parameter rather than the root type; distinct by sha1 of the case."
@@ -49,7 +51,9 @@ def strategy(tier):
             sb = sa
         else:
             sb, _ = draw(gen.streams(spec, max_rows=10, focus=focus))
-        return {"spec": spec, "variants": variants, "sa": [[r, w] for r, w in sa], "sb": [[r, w] for r, w in sb]}
+        # the process-global comparison tolerances (histogrammar.util) are for ==, never for merge compatibility
+        tol = draw(st.sampled_from((0.0, 0.0, 1e-6, 1e-3)))
+        return {"spec": spec, "variants": variants, "sa": [[r, w] for r, w in sa], "sb": [[r, w] for r, w in sb], "tol": tol}
 
     return cases()
 
@@ -112,17 +116,26 @@ def check(case):
     labels = ["kind:" + k for k in kinds(spec)]
     known = None
     nontrivial = False
-    for v in variants or [None]:
-        for opname, swap in combos:
-            try:
-                info = check_one(spec, v, case["sa"], case["sb"], opname, swap)
-            except Violation as e:
-                if e.kind == "iadd-partial-mutation":
-                    known = known or e  # recorded deviation: keep checking the other combinations
-                    continue
-                raise
-            nontrivial = nontrivial or info["nontrivial"]
-            labels += [x for x in info["labels"] if x not in labels]
+    import histogrammar.util as hutil  # noqa: PLC0415
+
+    tol = case.get("tol", 0.0)
+    if tol:
+        labels.append("tolerance-set")
+    try:
+        hutil.relativeTolerance = hutil.absoluteTolerance = tol
+        for v in variants or [None]:
+            for opname, swap in combos:
+                try:
+                    info = check_one(spec, v, case["sa"], case["sb"], opname, swap)
+                except Violation as e:
+                    if e.kind == "iadd-partial-mutation":
+                        known = known or e  # recorded deviation: keep checking the other combinations
+                        continue
+                    raise
+                nontrivial = nontrivial or info["nontrivial"]
+                labels += [x for x in info["labels"] if x not in labels]
+    finally:
+        hutil.relativeTolerance = hutil.absoluteTolerance = 0.0
     info = {"nontrivial": nontrivial, "labels": labels}
     if known is not None:
         from .. import findings  # noqa: PLC0415
